@@ -23,18 +23,35 @@ package rostdio
 //@   iteration ensures res(reader.Read, 0) <= 0 ==> count(destination.NextWithContext) == 0
 
 //@ func NewIOReaderLine$1
-//@   note the subscribe function of NewIOReaderLine: one bufio.Reader.ReadLine per line, each line delivered as a private copy, then the reader's outcome
+//@   note the subscribe function of NewIOReaderLine: one bufio.Reader.ReadLine per piece; the pieces of a line longer than the reader's buffer (isPrefix) are put together again and the whole line is delivered once, as a private copy; then the reader's outcome (a partial line that was already read is delivered first)
 //@   props C18
 //@   binds ctx destination reader
 //@   track destination.* loop.* call.NewReader
-//@   ensures [end-of-input-completes|C18] res(call.Reader.ReadLine, 2) == global_EOF ==> trace(call.NewReader(reader), loop.L0, destination.CompleteWithContext(ctx))
-//@   ensures [a-read-error-is-forwarded|C18] res(call.Reader.ReadLine, 2) != global_EOF ==> trace(call.NewReader(reader), loop.L0, destination.ErrorWithContext(ctx, res(call.Reader.ReadLine, 2)))
+//@   ensures [end-of-input-completes|C18] res(call.Reader.ReadLine, 2) == global_EOF ==> called(destination.CompleteWithContext) && !called(destination.ErrorWithContext) && arg(destination.CompleteWithContext, 0) == ctx
+//@   ensures [a-read-error-is-forwarded|C18] res(call.Reader.ReadLine, 2) != global_EOF ==> called(destination.ErrorWithContext) && !called(destination.CompleteWithContext) && arg(destination.ErrorWithContext, 0) == ctx && arg(destination.ErrorWithContext, 1) == res(call.Reader.ReadLine, 2)
+//@   ensures [a-pending-partial-line-is-delivered-before-the-outcome|C18] count(destination.NextWithContext) <= 1
 
 //@ loop NewIOReaderLine$1#0
 //@   iteration ensures count(call.Reader.ReadLine) == 1 && res(call.Reader.ReadLine, 2) == nil
+//@   iteration ensures res(call.Reader.ReadLine, 1) ==> count(destination.NextWithContext) == 0
+//@   iteration ensures !res(call.Reader.ReadLine, 1) ==> count(destination.NextWithContext) == 1 && before(call.Reader.ReadLine, destination.NextWithContext) && arg(destination.NextWithContext, 0) == ctx && len(arg(destination.NextWithContext, 1)) >= len(res(call.Reader.ReadLine, 0))
+
+//@ func NewPrompt$1
+//@   note the subscribe function of NewPrompt: one buffered reader over standard input for the whole subscription (what it read ahead is kept for the next line), the prompt before each read, each line delivered as a private copy, end of input completes
+//@   props C18
+//@   binds ctx destination prompt
+//@   maypanic
+//@   track destination.* loop.* call.NewReader
+//@   ensures [one-reader-for-the-subscription|C18] count(call.NewReader) == 1 && arg(call.NewReader, 0) == global_Stdin && before(call.NewReader, loop.L0)
+//@   ensures [end-of-input-completes|C18] res(call.Reader.ReadLine, 2) == global_EOF ==> trace(call.NewReader(_), loop.L0, destination.CompleteWithContext(ctx))
+//@   ensures [a-read-error-is-forwarded|C18] res(call.Reader.ReadLine, 2) != global_EOF ==> trace(call.NewReader(_), loop.L0, destination.ErrorWithContext(ctx, res(call.Reader.ReadLine, 2)))
+
+//@ loop NewPrompt$1#0
+//@   iteration ensures count(call.Reader.ReadLine) == 1 && res(call.Reader.ReadLine, 2) == nil && count(call.NewReader) == 0
 //@   iteration ensures count(destination.NextWithContext) == 1 && before(call.Reader.ReadLine, destination.NextWithContext) && arg(destination.NextWithContext, 0) == ctx && len(arg(destination.NextWithContext, 1)) == len(res(call.Reader.ReadLine, 0))
 
-// Sinks: every chunk is handed to the writer once, the number of bytes the writer accepted is emitted exactly once, just
+// Sinks: every chunk is handed to the writer once, the number of bytes the writer accepted (also those of a write that
+// failed half-way) is emitted exactly once, just
 // before the terminal notification - whichever way the stream ends.
 
 //@ operator NewIOWriter
@@ -43,7 +60,7 @@ package rostdio
 //@   inv count == n
 //@   track writer.Write
 //@   on next(ctx, value) when res(writer.Write, 1) == nil : emits writer.Write(value) ; n' = n + res(writer.Write, 0)
-//@   on next(ctx, value) when res(writer.Write, 1) != nil : emits writer.Write(value), Next(ctx, n), Error(ctx, res(writer.Write, 1))
+//@   on next(ctx, value) when res(writer.Write, 1) != nil : emits writer.Write(value), Next(ctx, n + res(writer.Write, 0)), Error(ctx, res(writer.Write, 1)) ; n' = n + res(writer.Write, 0)
 //@   on error(ctx, err) : emits Next(ctx, n), Error(ctx, err)
 //@   on complete(ctx) : emits Next(ctx, n), Complete(ctx)
 
@@ -53,6 +70,6 @@ package rostdio
 //@   inv count == n
 //@   track call.File.Write
 //@   on next(ctx, value) when res(call.File.Write, 1) == nil : emits call.File.Write(global_Stdout, value) ; n' = n + res(call.File.Write, 0)
-//@   on next(ctx, value) when res(call.File.Write, 1) != nil : emits call.File.Write(global_Stdout, value), Next(ctx, n), call.File.Write(global_Stderr, _), Error(ctx, res(call.File.Write, 1))
+//@   on next(ctx, value) when res(call.File.Write, 1) != nil : emits call.File.Write(global_Stdout, value), Next(ctx, n + res(call.File.Write, 0)), call.File.Write(global_Stderr, _), Error(ctx, res(call.File.Write, 1)) ; n' = n + res(call.File.Write, 0)
 //@   on error(ctx, err) : emits Next(ctx, n), call.File.Write(global_Stderr, _), Error(ctx, err)
 //@   on complete(ctx) : emits Next(ctx, n), Complete(ctx)
